@@ -300,6 +300,24 @@ func (ev *evaluator) ident(name string) *Val {
 			return v
 		}
 	}
+	// a closure verified on its own: variables of the enclosing functions
+	if ev.fr.caller == nil || rootParent(ev.fr.caller.fn) != rootParent(fn) {
+		for p := fn.Parent(); p != nil; p = p.Parent() {
+			for _, b := range p.Blocks {
+				for _, ins := range b.Instrs {
+					if a, ok := ins.(*ssa.Alloc); ok && a.Comment == name {
+						ev.own()
+						return ev.deref(ev.x.parentCell(ev.st, a), a.Type())
+					}
+				}
+			}
+			for _, prm := range p.Params {
+				if prm.Name() == name {
+					ev.errorf("parameter %q of the enclosing function is not captured by reference", name)
+				}
+			}
+		}
+	}
 	// package level
 	if pkg := ev.pkgOf(); pkg != nil {
 		if obj := pkg.Scope().Lookup(name); obj != nil {
